@@ -1,6 +1,6 @@
 (* C11 — behaviours that contradict the property (witnesses by computation). *)
 From Coq Require Import ZArith List Bool.
-From Tally Require Import Base.Obs Model.Buckets Model.Snapshot.
+From Tally Require Import Base.ObsCore Model.Buckets Model.Snapshot.
 Import ListNotations.
 Open Scope Z_scope.
 
